@@ -246,6 +246,11 @@ func (ord *Order) Normalize(normalizers tax.Normalizers) {
 	tax.Normalize(normalizers, ord.Tax)
 	tax.Normalize(normalizers, ord.Supplier)
 	tax.Normalize(normalizers, ord.Customer)
+	if ord.HasTags(tax.TagCustomerRates) {
+		// the customer's country must be on the combos before they are
+		// normalized, so that the result does not change on a second pass
+		applyCustomerRates(ord)
+	}
 	tax.Normalize(normalizers, ord.Buyer)
 	tax.Normalize(normalizers, ord.Seller)
 	tax.Normalize(normalizers, ord.Preceding)
